@@ -152,20 +152,31 @@ func (w *WorkerPool) WorkerCount() int {
 
 // Shutdown shuts down the WorkerPool.
 func (w *WorkerPool) Shutdown() *WorkerPool {
-	w.mutex.Lock()
-	defer w.mutex.Unlock()
-
-	if w.isRunning {
-		w.isRunning = false
-
-		for range w.workerCount {
-			w.shutdownSignal <- struct{}{}
-		}
-
+	if w.stop() {
+		// wake the dispatcher up after the lock was released: it evaluates its wait condition (which needs the read
+		// lock) while holding the queue's mutex, and the signal needs that mutex.
 		w.Queue.SignalShutdown()
 	}
 
 	return w
+}
+
+// stop switches the WorkerPool off and signals the workers; it returns false if the WorkerPool was not running.
+func (w *WorkerPool) stop() (stopped bool) {
+	w.mutex.Lock()
+	defer w.mutex.Unlock()
+
+	if !w.isRunning {
+		return false
+	}
+
+	w.isRunning = false
+
+	for range w.workerCount {
+		w.shutdownSignal <- struct{}{}
+	}
+
+	return true
 }
 
 // increasePendingTasks increases the number of pending tasks.
